@@ -760,11 +760,17 @@ def Ty.mentionsSrc : Ty → Bool
   | .slice e => e.mentionsSrc
   | _ => false
 
-/-- does the statement type-check: both selectors resolve, a setter is not read, ToX/FromX exist only
-    on the mapped struct types, a pointer conversion `*T(x)` does not parse as one, and the conversion
-    target is printed package-qualified (`src.Label(x)`, or `<alias>.Label(x)`) even inside its own package -/
+/-- the selector the generator prints for the field resolves, by Go's rule, to a field of the type the generator
+    planned with (it can be another field of that name: a promoted `map:"-"` field hiding the collected one — F_skipShadow) -/
+def resolvesAs (t : Tree) (f : Field) : Bool :=
+  match resolveField t f with
+  | some l => f.isGet || f.isSet || l.decl.ty == f.ty
+  | none => false
+
+/-- does the statement type-check: both selectors resolve to fields of the planned types, a setter is not read (but as a
+    method value into an `any`), ToX/FromX exist only on the mapped struct types -/
 def stmtCompiles (rs ws : Tree) (c : Claim) : Bool :=
-  (resolveField rs c.rd).isSome && (resolveField ws c.wr).isSome && (!c.rd.isSet || c.wr.ty == .basic "any") &&
+  resolvesAs rs c.rd && resolvesAs ws c.wr && (!c.rd.isSet || c.wr.ty == .basic "any") &&
   (match c.strat with
    | .sub _ _ | .each _ _ => (elemOf c.rd.ty).isStructNamed && (elemOf c.wr.ty).isStructNamed
    | _ => true)
@@ -772,7 +778,7 @@ def stmtCompiles (rs ws : Tree) (c : Claim) : Bool :=
 def argCompiles (rs : Tree) (a : CtorArg) : Bool :=
   match a.rd with
   | none => true
-  | some rd => (resolveField rs rd).isSome && (!rd.isSet || a.p.ty == .basic "any")
+  | some rd => resolvesAs rs rd && (!rd.isSet || a.p.ty == .basic "any")
 
 inductive Outcome where
   | panic
